@@ -28,7 +28,20 @@ fn data(c: &Case) -> Vec<u8> {
     if c.len == 0 {
         return Vec::new();
     }
-    ContentSpec { kind: c.kind % 3, len: c.len, seed: c.seed }.bytes()
+    let base = ContentSpec { kind: c.kind % 3, len: c.len, seed: c.seed }.bytes();
+    match c.kind / 3 {
+        // payload that begins with a codec's magic number (gzip, zstd, a brotli-looking byte, gzip again)
+        1 => {
+            let magic: &[u8] = [&[0x1f, 0x8b, 0x08][..], &[0x28, 0xb5, 0x2f, 0xfd][..], &[0x8b][..], &[0x1f, 0x8b][..]][(c.seed % 4) as usize];
+            let mut v = magic.to_vec();
+            v.extend_from_slice(&base);
+            v.truncate(c.len.max(1) as usize);
+            v
+        }
+        // payload that is itself a complete compressed stream (compressing twice)
+        2 => codec::compress(1 + (c.seed % 4) as u8, &base[..base.len().min(20_000)], codec::Params { level: 6, flag: 0 }),
+        _ => base,
+    }
 }
 
 static GZ_QUEUE: Mutex<Vec<(Vec<u8>, u64, usize)>> = Mutex::new(Vec::new());
@@ -132,6 +145,15 @@ fn check(c: &Case, py: bool) -> CaseResult {
     let d = data(c);
     let cn = codec::name(c.codec);
     let e = |what: &str, r: std::io::Result<(Vec<u8>, usize)>| r.map_err(|e| Fail::new(format!("C14/err/{what}/{cn}"), format!("{what} failed on {} input bytes: {e}", d.len())));
+    // a failing one-shot call first (truncated stream of another payload): state left behind by a failed call
+    // must not leak into the next one
+    if c.seed % 3 == 0 && c.codec != 1 {
+        let other = ContentSpec { kind: 2, len: 3000 + c.len % 5000, seed: c.seed ^ 0x55 }.bytes();
+        let mut broken = codec::compress(c.codec, &other, codec::Params { level: 6, flag: 0 });
+        let keep = broken.len() * 2 / 3;
+        broken.truncate(keep.max(1));
+        let _ = guarded("decompress_all", || util::decompress_all(codec::to_lib(c.codec), &broken))?;
+    }
     // encoders
     let one = guarded("compress_all", || util::compress_all(codec::to_lib(c.codec), &d))?.map_err(|e| Fail::new(format!("C14/err/compress_all/{cn}"), format!("{e}")))?;
     let (ss, nw) = e("compress(streaming)", guarded("compress", || stream_compress_sync(c.codec, &d, &c.wsplit))?)?;
@@ -166,6 +188,9 @@ fn check(c: &Case, py: bool) -> CaseResult {
         .label(d.is_empty(), "empty-input")
         .label(d.len() == 1, "one-byte")
         .label(d.len() > 100_000, "large-input")
+        .label(c.kind / 3 == 1, "starts-with-codec-magic")
+        .label(c.kind / 3 == 2, "already-compressed-payload")
+        .label(c.seed % 3 == 0 && c.codec != 1, "after-failed-decompress")
         .label(nw >= 2, "multi-write")
         .label(nr >= 2, "multi-read")
         .label(true, super::c01::codec_label(c.codec)))
@@ -233,7 +258,7 @@ fn python_batch(ctx: &Ctx) {
 fn strategy(max_len: u32) -> impl Strategy<Value = Case> {
     let len = prop_oneof![1 => Just(0u32), 1 => Just(1u32), 4 => 2u32..300, 3 => 300u32..20_000, 1 => 20_000u32..=max_len];
     let split = || prop_oneof![1 => Just(vec![]), 2 => (1u32..10).prop_map(|k| vec![k]), 3 => proptest::collection::vec(prop_oneof![3 => 1u32..20, 2 => 20u32..5000, 1 => 5000u32..100_000], 1..8)];
-    (0u8..3, len, any::<u32>(), 1u8..=4, split(), split()).prop_map(|(kind, len, seed, codec, wsplit, rsplit)| Case { kind, len, seed, codec, wsplit, rsplit })
+    (prop_oneof![6 => 0u8..3, 2 => 3u8..6, 2 => 6u8..9], len, any::<u32>(), 1u8..=4, split(), split()).prop_map(|(kind, len, seed, codec, wsplit, rsplit)| Case { kind, len, seed, codec, wsplit, rsplit })
 }
 
 pub fn run(ctx: &Ctx) {
@@ -252,7 +277,7 @@ pub fn run(ctx: &Ctx) {
     run_list(ctx, "codec-pairings-large", &big, |c| check(c, false));
     run_list(ctx, "unknown-compression", &[0u8, 1u8], check_unknown);
     python_batch(ctx);
-    for c in ["empty-input", "one-byte", "large-input", "multi-write", "multi-read", "internal-brotli", "internal-gzip", "internal-zstd", "internal-none"] {
+    for c in ["empty-input", "one-byte", "large-input", "multi-write", "multi-read", "starts-with-codec-magic", "already-compressed-payload", "after-failed-decompress", "internal-brotli", "internal-gzip", "internal-zstd", "internal-none"] {
         ctx.rec.floor(c, 4);
     }
 }
